@@ -49,7 +49,20 @@ def narrow(code):
 
 def wide(code):
     fn = code.co_filename
-    return fn == '<string>' or fn.endswith(WIDE_FILES)
+    return fn == '<string>' or fn.endswith(WIDE_FILES) or (code.co_name == 'na_handler' and fn.endswith('c19.py'))
+
+
+def narrow_reconf(code):
+    """Yield points for the runtime-reconfiguration setups: the router window plus add_route and the
+    media-handler mapping (mutation and resolution)."""
+    fn = code.co_filename
+    if fn == '<string>':
+        return code.co_name == 'find'
+    if fn.endswith('falcon/routing/compiled.py'):
+        return code.co_name in ROUTER_FUNCS + ('add_route',)
+    if fn.endswith('falcon/media/handlers.py'):
+        return True
+    return code.co_name == 'na_handler' and fn.endswith('c19.py')
 
 
 # ------------------------------------------------------------------ generated applications
@@ -178,17 +191,71 @@ def build_app(asgi=False, flaky=False, variant=0):
     if flaky:
         app.router_options.converters['flaky'] = make_flaky_converter()
         app.add_route('/fl/{v:flaky}', Fl())
+
+    # ---- requests that reconfigure the running app (an admin endpoint): a new route, a replaced media handler
+    def marker_dumps(tok):
+        def dumps(obj):
+            return json.dumps({'by': tok, 'doc': obj}, sort_keys=True)
+        return dumps
+
+    def reconfigure(req, what):
+        tok = req.get_header('X-Tok')
+        if what == 'route':
+            if not asgi:
+                class Dyn:
+                    def on_get(self, req, resp):
+                        resp.media = common(req, 'dyn', made_by=tok)
+            else:
+                class Dyn:
+                    async def on_get(self, req, resp):
+                        resp.media = common(req, 'dyn', made_by=tok)
+            app.add_route('/dyn/' + tok, Dyn())
+        elif what == 'handler':
+            app.resp_options.media_handlers[falcon.MEDIA_JSON] = falcon.media.JSONHandler(dumps=marker_dumps(tok))
+
+    if not asgi:
+        class Admin:
+            def on_post(self, req, resp, what):
+                reconfigure(req, what)
+                resp.media = common(req, 'admin', what=what)
+
+        def na_handler(req, resp, ex, params):
+            ex.description = req.get_header('X-Tok')          # handlers do annotate the error they were given
+            raise ex
+    else:
+        class Admin:
+            async def on_post(self, req, resp, what):
+                reconfigure(req, what)
+                resp.media = common(req, 'admin', what=what)
+
+        async def na_handler(req, resp, ex, params):
+            import asyncio
+            ex.description = req.get_header('X-Tok')
+            await asyncio.sleep(0)
+            raise ex
+    app.add_route('/admin/{what}', Admin())
+    if variant % 2 == 0:
+        app.add_error_handler(falcon.HTTPMethodNotAllowed, na_handler)
     return app
 
 
-def gen_requests(rng, n, with_flaky=False):
+def gen_requests(rng, n, with_flaky=False, admin=False):
     reqs = []
-    kinds = ['items', 'users', 'files', 'err', 'items', 'miss', 'form', 'form']
+    kinds = ['items', 'users', 'files', 'err', 'items', 'miss', 'form', 'form', 'na', 'na']
+    if admin:
+        kinds = ['items', 'files', 'na', 'admin-route', 'admin-handler', 'dyn']
     if with_flaky:
         kinds += ['flaky', 'flaky']
+    have_admin = False
     for i in range(n):
         tok = 'tok%d-%04x' % (i, rng.randrange(1 << 16))
         kind = rng.choice(kinds)
+        if kind.startswith('admin'):
+            # at most ONE reconfiguring request per set: two of them race with each other inside the
+            # application's own logic (install ... render), which no framework can serialise
+            if have_admin:
+                kind = 'items'
+            have_admin = True
         esc = ''.join('%%%02X' % b for b in ('é' + tok).encode())          # >= 8 escapes: decode()'s long path
         q = rng.choice(['q=%s&l=a%d&l=b%d' % (tok, i, i), 'q=%s&l=a%d&l=b%d' % (esc, i, i), 'q=%s&l=%s' % (esc, esc),
                         '', 'q=same&l=x'])
@@ -213,9 +280,22 @@ def gen_requests(rng, n, with_flaky=False):
             headers.append(('Content-Type', 'application/x-www-form-urlencoded'))
         elif kind == 'flaky':
             path = '/fl/%s' % tok
+        elif kind == 'na':
+            method = 'DELETE'
+            path = '/items/%d/n%s' % (rng.randrange(10 ** 6), tok)
+        elif kind in ('admin-route', 'admin-handler'):
+            method = 'POST'
+            path = '/admin/' + kind.split('-')[1]
+        elif kind == 'dyn':
+            # a route that exists only after some admin-route request of this set was processed
+            path = '/dyn/@ADMIN@'
         else:
             path = '/nothing/%s' % tok
         reqs.append({'method': method, 'path': path, 'query': q, 'headers': headers, 'body': body})
+    admin_toks = [dict(r['headers'])['X-Tok'] for r in reqs if r['path'] == '/admin/route']
+    for r in reqs:
+        if '@ADMIN@' in r['path']:
+            r['path'] = r['path'].replace('@ADMIN@', admin_toks[0] if admin_toks else 'nobody')
     return reqs
 
 
@@ -503,6 +583,48 @@ def run(rec):
             if trunc:
                 rec.count('A.truncated')
             rec.count('A.schedules_setup_%d' % si, n_run)
+        # ---- phase A2: requests that reconfigure the running (already compiled) app, any-order serial reference
+        sched.is_monitored = narrow_reconf
+        TS.MON.restart_events()
+        rsets = [
+            ['GET /items/7/x', 'POST /admin/route', 'GET /files/a/b'],
+            ['POST /admin/handler', 'GET /items/8/y'],
+            ['DELETE /items/1/a', 'DELETE /items/2/b'],
+        ]
+        if not quick:
+            rsets += [['GET /dyn/@', 'POST /admin/route', 'GET /items/9/z']]
+        for ri, spec in enumerate(rsets):
+            reqs = []
+            for j, line in enumerate(spec):
+                m, pth = line.split(' ')
+                tok = 'adm%d-%d' % (ri, j)
+                reqs.append({'method': m, 'path': pth, 'query': 'q=' + tok, 'headers': [('X-Tok', tok), ('Accept', 'application/json')], 'body': b''})
+            atoks = [dict(r['headers'])['X-Tok'] for r in reqs if r['path'] == '/admin/route']
+            for r in reqs:
+                r['path'] = r['path'].replace('@', atoks[0] if atoks else 'nobody')
+            warm = {'method': 'GET', 'path': '/items/1/warm', 'query': '', 'headers': [('X-Tok', 'warm')], 'body': b''}
+
+            def build_warm(warm=warm):
+                app = build_app(False, False, 0)
+                wsgi_call(app, warm)
+                return app
+            accept = safe_serial(rec, build_warm, reqs, wsgi_call, isolated=False)
+            if accept is None:
+                continue
+
+            def once2(tape, mine, reqs=reqs, accept=accept, ri=ri, build_warm=build_warm):
+                ch = BoundedChooser(tape, 1)
+                run_controlled(rec, sched, build_warm, reqs, ch, 'A2', accept)
+                if mine:
+                    key = ('A2', ri, tuple(c for _, c in tape.log))
+                    rec.case(key)
+                    rec.seen('schedules', key)
+            n_run, trunc = TS.explore_partitioned(once2, rec.shard, rec.nshards, 600 if quick else 6000)
+            if trunc:
+                rec.count('A.truncated')
+            rec.count('A2.schedules_set_%d' % ri, n_run)
+        sched.is_monitored = narrow
+        TS.MON.restart_events()
         rec.exhaustive = rec.counters.get('A.truncated', 0) == 0
         # ---- phase B: random schedules, wide yield set
         sched.is_monitored = wide
@@ -514,10 +636,18 @@ def run(rec):
             n = rng.choice([2, 2, 3])
             flaky = rng.random() < 0.25
             variant = rng.randrange(4)
-            reqs = gen_requests(rng, n, with_flaky=flaky)
+            admin = (not flaky) and rng.random() < 0.3
+            reqs = gen_requests(rng, n, with_flaky=flaky, admin=admin)
 
             def build(flaky=flaky, variant=variant):
                 return build_app(False, flaky, variant)
+            if admin:
+                ch = RandomChooser(rng, rng.choice([0.05, 0.2, 0.4]))
+                rec.count('cls.reconfiguring_request_set')
+                run_controlled(rec, sched, build, reqs, ch, 'B', isolated=False)
+                rec.case(('B', tuple(r['path'] for r in reqs), tuple(ch.choices[:300])))
+                nb += 1
+                continue
             fresh = rng.random() < 0.7 or flaky
             if fresh:
                 ch = RandomChooser(rng, rng.choice([0.02, 0.1, 0.3]))
@@ -607,14 +737,19 @@ def run(rec):
     nc = 0
     while rec.elapsed() - t0 < share or nc < 10:
         n = rng.choice([2, 3, 3])
-        rq = gen_requests(rng, n)
-        acc = {tuple(asgi_serial_call(abuild(), r) for r in rq)}
+        adm = rng.random() < 0.25
+        rq = gen_requests(rng, n, admin=adm)
+        if adm:
+            acc = serial_vectors(abuild, rq, asgi_serial_call, isolated=False)
+        else:
+            acc = {tuple(asgi_serial_call(abuild(), r) for r in rq)}
         ch = run_asgi_schedule(rec, st, abuild, rq, lambda k: rng.randrange(k), acc)
         rec.case(('Cr', tuple(r['path'] for r in rq), tuple(ch)))
         nc += 1
     rec.count('C.random', nc)
     st.close()
     rec.floor('mon.serial_equivalence.A', 20)
+    rec.floor('mon.serial_equivalence.A2', 20)
     rec.floor('mon.serial_equivalence.B', 10)
     rec.floor('mon.serial_equivalence.D', 20)
     rec.floor('mon.serial_equivalence.asgi', 30)
